@@ -53,6 +53,9 @@ type LifeOp struct {
 	// Cancelled (subscribe only): the context handed to Subscribe has already
 	// been cancelled.
 	Cancelled bool `json:"cancelled,omitempty"`
+	// Query (subscribe only): the kind of query of this call (query.go); "" is
+	// the valid Stream query.
+	Query string `json:"query,omitempty"`
 }
 
 // LScenario is one case of part "lifetime".
@@ -100,6 +103,9 @@ func (sc *LScenario) validate() error {
 		if op.Cancelled && op.Kind != "subscribe" {
 			return fmt.Errorf("step %d: only a subscribe step can carry a cancelled context", i)
 		}
+		if !knownQueryKind(op.Query) || (op.Query != "" && op.Kind != "subscribe") {
+			return fmt.Errorf("step %d: query kind %q", i, op.Query)
+		}
 	}
 	if sc.Plain {
 		// A plain client can only be stopped by Close while it holds an Impl
@@ -128,6 +134,9 @@ type lifeCall struct {
 	err      error
 
 	// subscribe
+	query     string // kind of query (query.go)
+	refused   bool   // the client documents that this call fails at once
+	callSeq   int    // len(w.events) after the call was recorded
 	cancel    context.CancelFunc
 	beginBase int // underlying attempts begun before the call
 	stopped   bool
@@ -406,6 +415,9 @@ func runLife(sc *LScenario, st *stats) *verr {
 			st.label("close-before-any-subscribe")
 		case k.sub == nil:
 			st.label("close-with-no-subscribe-running")
+			if cur != nil && cur.refused {
+				st.label("close-after-refused-subscribe")
+			}
 		case k.sub.stopped && k.sub.stopKind == "cancel":
 			st.label("close-while-cancelled-subscribe-unwinds")
 		case k.sub.stopped:
@@ -445,14 +457,27 @@ ops:
 				}
 			}
 			sleepUntil(next(op.Wait))
-			s := &lifeCall{kind: "subscribe", op: i, n: nSub, at: w.now()}
+			s := &lifeCall{kind: "subscribe", op: i, n: nSub, at: w.now(), query: op.Query, refused: queryRefused(op.Query, sc.Plain)}
 			nSub++
+			if op.Query != "" {
+				st.label("query:" + op.Query)
+			}
+			if s.refused {
+				st.label("subscribe-refused")
+				if s.n > 0 {
+					st.label("subscribe-refused-on-a-used-client")
+				}
+			} else if queryInvalid(op.Query) {
+				st.label("every-attempt-rejects-the-query")
+			}
 			w.mu.Lock()
 			s.beginBase = w.nBegin
 			w.mu.Unlock()
 			ctx, cancel := context.WithCancel(context.Background())
 			s.cancel = cancel // (called at the end of the case at the latest)
-			if closeAt >= 0 && !sc.Plain {
+			if s.refused {
+				// needs no stop action: it fails at once whatever the client's state
+			} else if closeAt >= 0 && !sc.Plain {
 				// a closed reconnecting client: Close came before Subscribe
 				_, s.k = situation(nil)
 				s.stopped, s.stopKind, s.stopAt, s.phase, s.bound = true, "closed-before", closeAt, "before-subscribe", boundOf(s.k)
@@ -470,7 +495,7 @@ ops:
 			if op.Cancelled {
 				cancel()
 				st.label("subscribe-with-cancelled-context")
-				if !s.stopped {
+				if !s.stopped && !s.refused {
 					_, s.k = situation(nil)
 					s.stopped, s.stopKind, s.stopAt, s.phase, s.bound = true, "cancelled-before", s.at, "before-subscribe", boundOf(s.k)
 					if s.n > 0 {
@@ -486,13 +511,18 @@ ops:
 					st.label("subscribe-again-after-closed-subscribe")
 				case "closed-before", "cancelled-before":
 				case "":
-					st.label("subscribe-again-after-subscribe-ended-by-itself")
+					if cur.refused {
+						st.label("subscribe-again-after-refused-subscribe")
+					} else {
+						st.label("subscribe-again-after-subscribe-ended-by-itself")
+					}
 				}
 			}
 			cur = s
 			calls = append(calls, s)
-			w.record("sub-call", -1, fmt.Sprintf("#%d", s.n))
-			go func() { finish(s, "ret", c.Subscribe(ctx, q, script.clientTypes()...)) }()
+			s.callSeq = w.record("sub-call", -1, fmt.Sprintf("#%d", s.n))
+			sq := mkQuery(op.Query, q, w)
+			go func() { finish(s, "ret", c.Subscribe(ctx, sq, script.clientTypes()...)) }()
 			synctest.Wait()
 		case "cancel":
 			if cur == nil {
@@ -510,6 +540,12 @@ ops:
 		case "close":
 			doClose(i, next(op.Wait))
 		case "poll":
+			if cur != nil && !isReturned(cur) && queryPollType(cur.query) {
+				// Poll reads the stream itself; the clients do not define
+				// that for a stream Subscribe is still reading.
+				st.label("poll-step-skipped-poll-query-still-subscribed")
+				continue
+			}
 			sleepUntil(next(op.Wait))
 			p := &lifeCall{kind: "poll", op: i, n: nPoll, at: w.now()}
 			nPoll++
@@ -652,6 +688,20 @@ func judgeLife(sc *LScenario, w *world, st *stats, calls []*lifeCall, deaf map[i
 	for _, c := range calls {
 		switch c.kind {
 		case "subscribe":
+			if c.refused && !c.stopped {
+				to := len(w.events)
+				if c.returned {
+					to = c.retSeq - 1
+				}
+				var between []event
+				if c.callSeq <= to {
+					between = w.events[c.callSeq:to]
+				}
+				if v := refusedClause(c.String(), c.query, sc.Plain, c.returned, c.at, c.ret, fmt.Sprint(c.err), between); v != nil {
+					return v
+				}
+				continue
+			}
 			if !c.stopped {
 				if !sc.Plain && c.returned {
 					return newVerr("gave-up", "%v of the reconnecting client returned (%v) at %v although the client was not closed and its context not cancelled", c, c.err, c.ret)
@@ -730,7 +780,11 @@ func judgeLife(sc *LScenario, w *world, st *stats, calls []*lifeCall, deaf map[i
 				hi = subs[i+1].beginBase
 			}
 			if s.beginBase >= hi {
-				// no attempt at all: only right for a client that was already closed
+				// no attempt at all: only right for a client that was already
+				// closed, and for a call the client documents to refuse
+				if s.refused {
+					continue
+				}
 				if !s.stopped || s.stopAt > s.at {
 					return newVerr("no-attempt", "%v made no underlying attempt although the client had not been closed when it was called", s)
 				}
